@@ -1,6 +1,7 @@
 import KoordVerif.Proofs.C16Evict
 import KoordVerif.Model.C16Arb
 import KoordVerif.Proofs.C16ExtArb
+import KoordVerif.Proofs.C16Ext2Cycle
 /-
 C16 — descheduler disruption budgets are never exceeded, even with concurrent evictors.
 
@@ -9,7 +10,8 @@ EVERY schedule of the atomic blocks, a caller whose check, call and count form o
 `issued ≤ cap` and `counters = issued`; the shape that the repository had before c13dbd3/888c815/62f0c55
 does not (witness schedule).  Ties/C16.lean shows that the shape extracted from today's source is the safe one.
 Part 2 (M-arb): one iteration of the arbitration loop, on the state that already contains every earlier
-admission of the same round.
+admission of the same round, the whole round (round_inv), and the two-step duplicate lookup.
+Part 3 (cycle): Reset ; Deschedule phase ; Balance phase of one deschedulerOnce keeps the caps for the whole cycle.
 -/
 namespace KoordVerif.C16
 
@@ -223,14 +225,62 @@ theorem failed_update_no_effect (cfg : ArbCfg) (uf : List Nat) (st : ArbSt) (jid
         simp [this] at hv
 
 /-- **no_second_job**: `arbitratorImpl.Filter` never accepts a pod that already has a pending or running job. -/
-theorem no_second_job (cfg : ArbCfg) (st : ArbSt) (p : PodA) (j : JobA)
-    (hj : j ∈ st.jobs) (hpod : j.pod = p.id) (hph : j.phase = 0 ∨ j.phase = 1 ∨ j.phase = 2) :
+theorem no_second_job_ref (cfg : ArbCfg) (st : ArbSt) (p : PodA) (j : JobA)
+    (hj : j ∈ st.jobs) (hpod : (j.pod ≠ 0 ∧ j.uid = p.id) ∨ j.pod = p.id) (hph : j.phase = 0 ∨ j.phase = 1 ∨ j.phase = 2) :
     arbFilter cfg st p = false := by
   have : hasJob st false p = true := by
-    simp only [hasJob, List.any_eq_true]
+    rw [hasJob_eq_any, List.any_eq_true]
     refine ⟨j, hj, ?_⟩
-    rcases hph with h | h | h <;> simp [live, h, hpod]
+    have hm : jmatch j p = true := by
+      rcases hpod with ⟨h0, hu⟩ | hn
+      · simp [jmatch, h0, hu]
+      · simp [jmatch, hn]
+    rcases hph with h | h | h <;> simp [live, h, hm]
   simp [arbFilter, this]
+
+/-- **no_second_job** in its original form: the job names the pod by namespace/name (whatever UID it carries) -/
+theorem no_second_job (cfg : ArbCfg) (st : ArbSt) (p : PodA) (j : JobA)
+    (hj : j ∈ st.jobs) (hpod : j.pod = p.id) (hph : j.phase = 0 ∨ j.phase = 1 ∨ j.phase = 2) :
+    arbFilter cfg st p = false := no_second_job_ref cfg st p j hj (Or.inr hpod) hph
+
+/-- **existing_lookup_iff**: the two-step lookup of existingPodMigrationJob (UID index first, namespace/name index
+    only when the first found nothing) answers "true" exactly when some available job refers to the pod by UID
+    OR by namespace/name — the fall-back makes the order of the two lookups irrelevant. -/
+theorem existing_lookup_iff (st : ArbSt) (ca : Bool) (v : PodA) :
+    hasJob st ca v = true ↔
+      ∃ j ∈ st.jobs, live st.arbitrated ca j = true ∧ ((j.pod ≠ 0 ∧ j.uid = v.id) ∨ j.pod = v.id) := by
+  rw [hasJob_eq_any, List.any_eq_true]
+  constructor
+  · rintro ⟨j, hj, h⟩
+    simp only [jmatch, Bool.and_eq_true, Bool.or_eq_true, bne_iff_ne, ne_eq, beq_iff_eq] at h
+    exact ⟨j, hj, h.1, h.2⟩
+  · rintro ⟨j, hj, hl, h⟩
+    refine ⟨j, hj, ?_⟩
+    simp only [jmatch, Bool.and_eq_true, Bool.or_eq_true, bne_iff_ne, ne_eq, beq_iff_eq]
+    exact ⟨hl, h⟩
+
+/-- **ifelse_lookup_counterexample**: with the lookup written as an if/else on the pod's UID (`hasJobIfElse`: a pod
+    that has a UID is looked up ONLY by UID) the rule is broken: pod 1 has a Running job whose PodRef carries only
+    namespace/name (hand-written job, no UID); the two-step lookup finds it, the if/else one does not, so `Filter`
+    would accept a second job for the pod and the per-node count would miss it. -/
+theorem ifelse_lookup_counterexample :
+    ¬ (∀ (st : ArbSt) (v : PodA), hasJob st false v = true → hasJobIfElse st false v = true) := by
+  intro h
+  have := h { pods := [⟨1, 1, 1, 1, true, false, false, 0⟩], jobs := [⟨1, 1, 1, 2, false, 0⟩] } ⟨1, 1, 1, 1, true, false, false, 0⟩ (by decide)
+  revert this
+  decide
+
+/-- the counts of the other limits skip the jobs carrying the pod's own UID: under `WF` that is at most the pod's own
+    job, so for every OTHER pod `v` a live job about `v` (by name) is always counted — stated for the global count -/
+theorem global_counts_other_pods (st : ArbSt) (w : WF st) (p v : PodA) (hp : p ∈ st.pods) (hv : v ∈ st.pods)
+    (hne : v.id ≠ p.id) (j : JobA) (hj : j ∈ st.jobs) (hl : live st.arbitrated true j = true) (h0 : j.pod ≠ 0)
+    (hjv : j.pod = v.id) : j ∈ globalJobs st true p := by
+  simp only [globalJobs, List.mem_filter, Bool.and_eq_true, bne_iff_ne, ne_eq]
+  refine ⟨hj, ⟨hl, h0⟩, ?_⟩
+  intro e
+  rcases w.uidRef j hj p hp h0 e with e' | e'
+  · exact hne (hjv.symm.trans e')
+  · exact e' v hv hjv.symm
 
 /-- **round_inv** (counting half; with `round_inv_partial` the full statement of DESIGN §4).  For every
     well-formed state (unique names, PodRefs resolve inside their namespace, no pod with two open jobs),
@@ -293,7 +343,7 @@ theorem missing_pod_bypass_counterexample :
         cntGlobal (round cfg [] st order) ≤ max cfg.maxGlobal.toNat (cntGlobal st)) := by
   intro h
   have := h { maxGlobal := 1, maxNode := -1, maxNs := -1, maxMigr := -1, maxUnav := -1, replicas := [(1, 5)] }
-    { pods := [⟨1, 1, 1, 1, true, false, false, 0⟩], jobs := [⟨1, 1, 1, 2, true⟩, ⟨2, 9, 1, 0, false⟩], waiting := [2] }
+    { pods := [⟨1, 1, 1, 1, true, false, false, 0⟩], jobs := [⟨1, 1, 1, 2, true, 1⟩, ⟨2, 9, 1, 0, false, 9⟩], waiting := [2] }
     [2] (by decide) (by decide) (by decide)
   revert this
   decide
@@ -314,7 +364,7 @@ example :
     let cfg : ArbCfg := { maxGlobal := -1, maxNode := -1, maxNs := -1, maxMigr := -1, maxUnav := 2, replicas := [(1, 5)] }
     let st : ArbSt := { pods := [⟨1, 1, 1, 1, true, false, true, 0⟩, ⟨2, 1, 1, 1, true, false, false, 0⟩,
                                  ⟨3, 2, 1, 1, true, false, false, 0⟩],
-                        jobs := [⟨1, 2, 1, 0, false⟩, ⟨2, 3, 1, 0, false⟩], waiting := [1, 2] }
+                        jobs := [⟨1, 2, 1, 0, false, 2⟩, ⟨2, 3, 1, 0, false, 3⟩], waiting := [1, 2] }
     WF st ∧ (round cfg [] st [1, 2]).arbitrated = [1] ∧ roundExempt cfg [] st [1, 2] = 0 ∧
       cntUnav st 1 1 = 1 ∧ cntUnav (round cfg [] st [1, 2]) 1 1 = 2 ∧ wlLimit cfg 1 cfg.muKind cfg.maxUnav = 2 := by decide
 
@@ -322,14 +372,100 @@ example :
 example :
     let cfg : ArbCfg := { maxGlobal := 1, maxNode := -1, maxNs := -1, maxMigr := -1, maxUnav := -1, replicas := [(1, 8)] }
     let st : ArbSt := { pods := [⟨1, 1, 1, 1, true, false, false, 0⟩, ⟨2, 1, 1, 1, true, true, false, 0⟩],
-                        jobs := [⟨1, 1, 1, 0, false⟩, ⟨2, 2, 1, 0, false⟩], waiting := [1, 2] }
+                        jobs := [⟨1, 1, 1, 0, false, 1⟩, ⟨2, 2, 1, 0, false, 2⟩], waiting := [1, 2] }
     WF st ∧ cntGlobal (round cfg [] st [1, 2]) = 2 ∧ roundExempt cfg [] st [1, 2] = 1 := by decide
 
 -- non-vacuity: a round over two waiting jobs on one node with per-node limit 1 admits the first, keeps the second
 example :
     let cfg : ArbCfg := { maxGlobal := -1, maxNode := 1, maxNs := -1, maxMigr := -1, maxUnav := 3, replicas := [(1, 5)] }
     let st : ArbSt := { pods := [⟨1, 1, 1, 1, true, false, false, 0⟩, ⟨2, 1, 1, 1, true, false, false, 0⟩],
-                        jobs := [⟨1, 1, 1, 0, false⟩, ⟨2, 2, 1, 0, false⟩], waiting := [1, 2] }
+                        jobs := [⟨1, 1, 1, 0, false, 1⟩, ⟨2, 2, 1, 0, false, 2⟩], waiting := [1, 2] }
     (round cfg [] st [1, 2]).arbitrated = [1] ∧ (round cfg [] st [1, 2]).waiting = [2] := by decide
+
+/-! ### Part 3 — one descheduling cycle (deschedulerOnce) -/
+
+/-- **cycle_caps_hold.**  One cycle = Reset ; Deschedule phase ; Balance phase (the shape `cycleShape`, tied to the
+    source by Ties/C16.lean).  Whatever counters the previous cycle left behind, whatever the two phases attempt and
+    whatever the API answers: the evictions issued in the WHOLE cycle (both phases together) are within the caps per
+    real node, per namespace and in total, and the limiter's counters after the cycle equal the evictions issued. -/
+theorem cycle_caps_hold (caps : Caps) (s0 : Ctr) (ph1 ph2 : List (Pod × Bool)) :
+    let r := cycle (some caps) false s0 ph1 ph2
+    let iss := issuedOf (ph1 ++ ph2) r.2
+    (∀ n, n ≠ 0 → issuedBy (·.node) iss n = cget r.1.node n ∧ capLe caps.node (issuedBy (·.node) iss n)) ∧
+    (∀ k, issuedBy (·.ns) iss k = cget r.1.ns k ∧ capLe caps.ns (issuedBy (·.ns) iss k)) ∧
+    (iss.length = r.1.total ∧ capLe caps.total iss.length) := by
+  obtain ⟨i1, g1, h1, l1⟩ := pxSeq_good caps ph1 {} [] (good_init caps)
+  obtain ⟨i2, g2, h2, l2⟩ := pxSeq_good caps ph2 _ i1 g1
+  have hr1 : (cycle (some caps) false s0 ph1 ph2).1 = (pxSeq (some caps) false (pxSeq (some caps) false {} ph1).1 ph2).1 := by
+    simp [cycle, cycleShape, runCycleEvents]
+  have hr2 : (cycle (some caps) false s0 ph1 ph2).2 =
+      (pxSeq (some caps) false {} ph1).2 ++ (pxSeq (some caps) false (pxSeq (some caps) false {} ph1).1 ph2).2 := by
+    simp [cycle, cycleShape, runCycleEvents]
+  have hiss : issuedOf (ph1 ++ ph2) (cycle (some caps) false s0 ph1 ph2).2 =
+      issuedOf ph1 (pxSeq (some caps) false {} ph1).2 ++
+        issuedOf ph2 (pxSeq (some caps) false (pxSeq (some caps) false {} ph1).1 ph2).2 := by
+    rw [hr2]; exact issuedOf_append _ _ _ _ (pxSeq_length _ _ _ _).symm
+  have hby : ∀ f k, issuedBy f (issuedOf (ph1 ++ ph2) (cycle (some caps) false s0 ph1 ph2).2) k = issuedBy f i2 k := by
+    intro f k
+    rw [hiss, issuedBy_append, h2 f k, h1 f k]
+    simp [issuedBy]
+  have hlen : (issuedOf (ph1 ++ ph2) (cycle (some caps) false s0 ph1 ph2).2).length = i2.length := by
+    rw [hiss, List.length_append, l2, l1]; simp
+  simp only []
+  rw [hr1]
+  refine ⟨fun n hn => ?_, fun k => ?_, ?_, ?_⟩
+  · rw [hby]; exact ⟨g2.node n hn, by rw [g2.node n hn]; exact g2.caps.node n hn⟩
+  · rw [hby]; exact ⟨g2.ns k, by rw [g2.ns k]; exact g2.caps.ns k⟩
+  · rw [hlen]; exact g2.total
+  · rw [hlen, g2.total]; exact g2.caps.total
+
+/-- a cycle does not depend on what the previous cycle left in the counters (Reset comes first) -/
+theorem cycle_forgets_previous (lim : Option Caps) (dry : Bool) (s0 s1 : Ctr) (ph1 ph2 : List (Pod × Bool)) :
+    cycle lim dry s0 ph1 ph2 = cycle lim dry s1 ph1 ph2 := by
+  simp [cycle, cycleShape, runCycleEvents]
+
+/-- **reset_between_phases_counterexample**: with the Reset inside a helper that runs once per phase (events
+    Reset ; Deschedule ; Reset ; Balance) the caps do not hold for the cycle although each phase alone respects them:
+    total cap 3, per-node cap 2, both phases try two pods on node 1 and one on node 2: 6 evictions are issued, 4 of
+    them on node 1, and the limiter reports 3. -/
+theorem reset_between_phases_counterexample :
+    ¬ (∀ (caps : Caps) (ph1 ph2 : List (Pod × Bool)),
+        let r := runCycleEvents (some caps) false [1, 3, 1, 4] {} ph1 ph2
+        capLe caps.total (issuedOf (ph1 ++ ph2) r.2).length ∧
+          capLe caps.node (issuedBy (·.node) (issuedOf (ph1 ++ ph2) r.2) 1) ∧
+          (issuedOf (ph1 ++ ph2) r.2).length = r.1.total) := by
+  intro h
+  have := h ⟨some 2, none, some 3⟩ [(⟨1, 0⟩, true), (⟨1, 0⟩, true), (⟨2, 0⟩, true)] [(⟨1, 0⟩, true), (⟨1, 0⟩, true), (⟨2, 0⟩, true)]
+  simp only [capLe] at this
+  revert this
+  decide
+
+/-- dry-run: a cycle issues no call at all -/
+theorem cycle_dry_no_call (lim : Option Caps) (s0 : Ctr) (ph1 ph2 : List (Pod × Bool)) :
+    ∀ o ∈ (cycle lim true s0 ph1 ph2).2, o.called = false := by
+  have hseq : ∀ (ops : List (Pod × Bool)) (s : Ctr), ∀ o ∈ (pxSeq lim true s ops).2, o.called = false := by
+    intro ops
+    induction ops with
+    | nil => intro s o h; simp [pxSeq] at h
+    | cons a r ih =>
+      intro s o h
+      obtain ⟨p, ok⟩ := a
+      simp only [pxSeq, List.mem_cons] at h
+      rcases h with rfl | h
+      · cases lim with
+        | none => simp [pxEvict]
+        | some c => cases h : elRefuse c s p <;> simp [pxEvict, h]
+      · exact ih _ o h
+  intro o h
+  simp only [cycle, cycleShape, runCycleEvents] at h
+  simp at h
+  rcases h with h | h
+  · exact hseq _ _ o h
+  · exact hseq _ _ o h
+
+-- non-vacuity: the caps bite across the phase boundary (total cap 3: phase 1 issues 2, phase 2 only 1 of its 2)
+example :
+    let r := cycle (some ⟨none, none, some 3⟩) false {} [(⟨1, 0⟩, true), (⟨2, 0⟩, true)] [(⟨1, 1⟩, true), (⟨3, 0⟩, true)]
+    r.2.map (·.ok) = [true, true, true, false] ∧ r.1.total = 3 := by decide
 
 end KoordVerif.C16
